@@ -202,7 +202,15 @@ impl Ldap {
         // A Search has taken its options by now; for any other operation they are discarded.
         self.search_opts = None;
         let (tx, rx) = oneshot::channel();
-        self.tx.send((id, op, req, self.controls.take(), tx))?;
+        if let Err(e) = self.tx.send((id, op, req, self.controls.take(), tx)) {
+            // The connection is gone and nobody will ever release this ID.
+            self.msgmap
+                .lock()
+                .expect("msgmap mutex (op send)")
+                .1
+                .remove(&id);
+            return Err(e.into());
+        }
         let response = if let Some(timeout) = self.timeout.take() {
             let res = time::timeout(timeout, rx).await;
             if res.is_err() {
